@@ -310,7 +310,7 @@ def verify_format(run):
     sv = [n for n in ast.walk(fn) if isinstance(n, ast.Call) and ast.unparse(n.func) == "np.savetxt"]
     kw = {k.arg: ast.unparse(k.value) for k in sv[0].keywords} if len(sv) == 1 else {}
     want = {"fmt": "f'%0.{settings.decimals}f'", "delimiter": "self.separator", "header": "self.header(engine) if self.headers else ''", "comments": "''"}
-    run.add(static(f"{fq}/savetxt_arguments", len(sv) == 1 and kw == want, f"np.savetxt keywords: {kw}", fn=fq, meta={"replay": dict(RP_FLD, kwargs={"budget": 40, "only_class": "fld-format"})}))
+    run.add(static(f"{fq}/savetxt_arguments", len(sv) == 1 and kw == want, f"np.savetxt keywords: {kw}", fn=fq, meta={"soft": True, "replay": dict(RP_FLD, kwargs={"budget": 40, "only_class": "fld-format"})}))
     init = src.func("exporter", "FldExporter.__init__")
     reads = [ast.unparse(n) for n in ast.walk(init) if isinstance(n, ast.Attribute) and ast.unparse(n).startswith("settings.")]
     run.add(static("exporter.FldExporter.__init__/caches_no_setting", not reads, f"settings read in the constructor: {reads}", fn="exporter.FldExporter.__init__"))
@@ -319,15 +319,15 @@ def verify_format(run):
     seq = ["engine.restart()", "for index, variable in enumerate(engine.input_variables):\n    variable.value = input_values[:, index]", "engine.process()"]
     pos = [body.index(x) if x in body else -1 for x in seq]
     run.add(static(f"{fq}/restart_assign_columns_process_once", all(p_ >= 0 for p_ in pos) and pos == sorted(pos) and body.count("engine.process()") == 1,
-                   f"positions of restart / column assignment / process in the body: {pos}", fn=fq, meta={"replay": RP_FLD}))
+                   f"positions of restart / column assignment / process in the body: {pos}", fn=fq, meta={"soft": True, "replay": RP_FLD}))
     blocks = [ast.unparse(st) for st in body_of(fn) if isinstance(st, ast.If)]
     want_b = ["if self.input_values:\n    values.append(engine.input_values)", "if self.output_values:\n    values.append(engine.output_values)"]
-    run.add(static(f"{fq}/selected_blocks_inputs_then_outputs", [b for b in blocks if "values.append(engine" in b] == want_b, f"{[b for b in blocks if 'values.append(engine' in b]}", fn=fq, meta={"replay": RP_FLD}))
+    run.add(static(f"{fq}/selected_blocks_inputs_then_outputs", [b for b in blocks if "values.append(engine" in b] == want_b, f"{[b for b in blocks if 'values.append(engine' in b]}", fn=fq, meta={"soft": True, "replay": RP_FLD}))
     hd = src.func("exporter", "FldExporter.header")
     run.under_contract("exporter", "FldExporter.header", hd)
     hb = [ast.unparse(st) for st in body_of(hd)]
     want_h = ["result: list[str] = []", "if self.input_values:\n    result += [iv.name for iv in engine.input_variables]", "if self.output_values:\n    result += [ov.name for ov in engine.output_variables]", "return self.separator.join(result)"]
-    run.add(static("exporter.FldExporter.header/selected_names_inputs_then_outputs", hb == want_h, f"{hb}", fn="exporter.FldExporter.header", meta={"replay": dict(RP_FLD, kwargs={"budget": 40, "only_class": "fld-header"})}))
+    run.add(static("exporter.FldExporter.header/selected_names_inputs_then_outputs", hb == want_h, f"{hb}", fn="exporter.FldExporter.header", meta={"soft": True, "replay": dict(RP_FLD, kwargs={"budget": 40, "only_class": "fld-header"})}))
 
 
 
